@@ -205,7 +205,8 @@ def run(ctx):
     for lvl in (1, 3, 5):
         run_ops(ctx, exes, lvl, n_cheap, n_exp, hist, ophist)
     for lvl in (1, 3, 5):
-        G.gcd_sweep(ctx, exes[("bw", lvl)], G.LEVELS[lvl], "bw", thorough=not quick, ref_exe=exes[("ref", lvl)])
+        G.gcd_sweep(ctx, exes[("bw", lvl)], G.LEVELS[lvl], "bw", thorough=not quick, ref_exe=exes[("ref", lvl)],
+                    mmax=400 if quick else 2000)   # quick: the full m < 2000 sweep runs in C07; both builds take ~3 min to build
     ntr = {1: 5, 3: 3, 5: 2} if quick else {1: 120, 3: 50, 5: 30}
     for lvl in (1, 3, 5):
         run_transcripts(ctx, full, lvl, ntr[lvl])
